@@ -82,7 +82,12 @@ def handle (op : String) (j : Json) : Option Json :=
       let tags := [s!"mounts:{t.length}"] ++
         (if t.any (fun m => m.fstype == b!"overlay") then ["overlay"] else []) ++
         (if t.any (fun m => m.optional.length > 0) then ["optional"] else []) ++
-        (if t.any (fun m => mangleWith pathEsc m.mp != m.mp) then ["escaped-mp"] else [])
+        (if t.any (fun m => mangleWith pathEsc m.mp != m.mp) then ["escaped-mp"] else []) ++
+        -- an overlay directory with a raw '=' (the kernel does not escape it in option values)
+        (if t.any (fun m => m.fstype == b!"overlay" && m.super.any fun o =>
+            (o.key == b!"lowerdir" || o.key == b!"upperdir" || o.key == b!"workdir") &&
+            (match o.val with | some v => v.contains 61 | none => false))
+         then ["value-with-equals"] else [])
       -- recorded finding: the kernel does not escape CR, and the line reader (bufio.ScanLines)
       -- strips one CR at the end of a line: a last option value ending in CR comes back short
       let crAtEnd := t.any fun m => match m.super.getLast? with
